@@ -108,8 +108,13 @@ def parseNats (ws : List String) : Option (List Nat) :=
     | some v, some l => some (v :: l)
     | _, _ => none) (some [])
 
+/-- the byte-level hash entry points called with a reader that fails after delivering its bytes / an output that is too small -/
+def isFailingIo (op : String) : Bool :=
+  op == "pub_hash_rfail" || op == "pub_hash_wfail" || op == "pub_poseidon_rfail" || op == "pub_poseidon_wfail"
+
 def isHashOp (op : String) : Bool :=
-  op == "pub_poseidon" || op == "ffi_poseidon" || op == "h2f" || op == "pub_hash" || op == "ffi_hash" || op == "keccak"
+  op == "pub_poseidon" || op == "ffi_poseidon" || op == "h2f" || op == "pub_hash" || op == "ffi_hash" || op == "keccak" ||
+  isFailingIo op
 
 def treeStep (st : St) (w : List String) : St × String :=
   match st.inst with
@@ -148,6 +153,9 @@ def rlnStep (st : St) (w : List String) : St × String :=
     match TreeDriver.newInst { H := st.env.H2, spec := spec } "pm" 20 with
     | some inst => ({ st with inst := some { inst := inst }, rootCache := none }, "ok")
     | none => (st, "bad-op")
+  -- the same call with a reader that fails after delivering its bytes / an output that takes nothing: `read_to_end` or
+  -- `write_all` returns the error before any state is touched (proving, reading and key generation have no state)
+  | "io" :: _ => (st, "err")
   | ["set_leaf", i, v] => fwd ["set", i, v]
   | ["set_next", v] => fwd ["app", v]
   | ["delete", i] => fwd ["del", i]
@@ -318,7 +326,16 @@ def step (st : St) (line : String) : St × String :=
       | ["prove_verify", b, _sig] =>
         -- a request that proves must also verify (C01): `ok <values> accept`
         let (st', r) := rlnStep st ["prove_req", b]
-        (st', if r.startsWith "ok " then r ++ " accept" else r)
+        if r.startsWith "ok " then
+          -- the stateful verifier compares the published root (first 32 bytes of the values) with the tree's root;
+          -- the zk part holds for every message the prover returns (contract `Complete`)
+          match rlnView st' with
+          | some (root0, _, _, _) =>
+            let root := match st'.rootCache with | some r => r | none => root0 ()
+            let rootHex := showBytes (Zk.frToBytesLe root)
+            ({ st' with rootCache := some root }, r ++ (if ((r.drop 3).take 64).toString == rootHex then " accept" else " reject-false"))
+          | none => (st', r ++ " accept")
+        else (st', r)
       | _ => rlnStep st rest
   | "poseidon" :: args =>
     match parseNats args with
@@ -381,7 +398,8 @@ def step (st : St) (line : String) : St × String :=
       | some r => (st, r)
       | none => treeStep st [op, bs]
     | some b =>
-      if op == "pub_poseidon" || op == "ffi_poseidon" then (st, showOk ((pubPoseidon e b).map showBytes))
+      if isFailingIo op then (st, "err")       -- `read_to_end` / `write_all` fail: the error is returned, nothing else happens
+      else if op == "pub_poseidon" || op == "ffi_poseidon" then (st, showOk ((pubPoseidon e b).map showBytes))
       else if op == "h2f" then (st, fr (e.h2f b))
       else if op == "pub_hash" || op == "ffi_hash" then (st, showOk ((pubHash e b).map showBytes))
       else if op == "keccak" then (st, showBytes (Keccak.keccak256 b))
